@@ -18,12 +18,15 @@ pub mod c04;
 pub mod c05;
 pub mod c06;
 pub mod c07;
+pub mod c09;
+pub mod c10;
 pub mod c12;
+pub mod c14;
 pub mod c17;
 
 use runner::{Run, Sub};
 
-pub const PROPS: &[&str] = &["C01", "C02", "C03", "C04", "C05", "C06", "C07", "C12", "C17"];
+pub const PROPS: &[&str] = &["C01", "C02", "C03", "C04", "C05", "C06", "C07", "C09", "C10", "C12", "C14", "C17"];
 
 pub fn subs_of(prop: &str) -> Option<Vec<Sub>> {
     match prop {
@@ -34,7 +37,10 @@ pub fn subs_of(prop: &str) -> Option<Vec<Sub>> {
         "C05" => Some(c05::subs()),
         "C06" => Some(c06::subs()),
         "C07" => Some(c07::subs()),
+        "C09" => Some(c09::subs()),
+        "C10" => Some(c10::subs()),
         "C12" => Some(c12::subs()),
+        "C14" => Some(c14::subs()),
         "C17" => Some(c17::subs()),
         _ => None,
     }
@@ -49,7 +55,10 @@ pub fn run_prop(run: &Run) -> bool {
         "C05" => c05::run(run),
         "C06" => c06::run(run),
         "C07" => c07::run(run),
+        "C09" => c09::run(run),
+        "C10" => c10::run(run),
         "C12" => c12::run(run),
+        "C14" => c14::run(run),
         "C17" => c17::run(run),
         _ => return false,
     }
@@ -60,6 +69,7 @@ pub fn run_prop(run: &Run) -> bool {
 pub fn child_main(args: &[String]) -> i32 {
     match args.first().map(|s| s.as_str()) {
         Some("c05") => c05::child(&args[1..]),
+        Some("c10") => c10::child(&args[1..]),
         _ => 2,
     }
 }
